@@ -680,7 +680,7 @@ Proof.
   (* st' is the state after the history ops ++ [publish] *)
   assert (Hst' : st' = fst (run ideal cf st0 (ops ++ [OPublish k v ttl eol so]))).
   { subst st' st. clear. generalize st0. induction ops as [|o ops IH]; intros s.
-    - cbn [app run step]. destruct (publish ideal cf s k v ttl eol so); reflexivity.
+    - cbn [app]. rewrite run_cons. cbn [run fst step]. destruct (publish ideal cf s k v ttl eol so); reflexivity.
     - cbn [app]. rewrite !run_cons. cbn [fst]. apply IH. }
   rewrite Hst'. destruct (cache_transparent cf (ops ++ [OPublish k v ttl eol so]) p d) as [Hp Herr].
   cbv zeta in Hp, Herr. rewrite Hp, Herr. rewrite <- Hst'. clear Hp Herr Hst'.
@@ -779,7 +779,6 @@ Proof.
     + reflexivity.
     + cbn [length] in *. lia.
     + cbn [length] in *. destruct (1 <? d) eqn:E; lia.
-    + exact Hz.
 Qed.
 
 Lemma ref_rec_chain_rec : forall cf rt ts p z fuel d,
@@ -796,14 +795,24 @@ Proof.
   - inversion Hc'; subst. rewrite Hz. cbn [negb length Z.of_nat Z.eqb Pos.of_succ_nat Pos.eqb]. reflexivity.
   - assert (Hq : mutable q = true) by (inversion Hc'; subst; eapply hop_mutable; eauto).
     rewrite Hq. cbn [negb].
-    assert (Hd1 : (Z.of_nat (length (t :: t2 :: ts)) =? 1) = false) by (cbn [length]; lia).
+    set (d := Z.of_nat (length (t :: t2 :: ts))).
+    assert (Hdv : d = Z.of_nat (length (t2 :: ts)) + 1) by (subst d; cbn [length]; lia).
+    assert (Hdp : 2 <= d) by (rewrite Hdv; cbn [length]; lia).
+    assert (Hd1 : (d =? 1) = false) by lia.
     rewrite Hd1.
-    rewrite (IH q z fuel (if 1 <? Z.of_nat (length (t :: t2 :: ts)) then Z.of_nat (length (t :: t2 :: ts)) - 1
-                          else Z.of_nat (length (t :: t2 :: ts))) Hc'); try congruence.
+    rewrite (IH q z fuel (if 1 <? d then d - 1 else d) Hc'); try congruence.
     + reflexivity.
     + cbn [length] in *. lia.
-    + cbn [length]. destruct (1 <? _) eqn:E; lia.
-    + exact Hz.
+    + destruct (1 <? d) eqn:E; lia.
+Qed.
+
+Lemma ref_once_err : forall cf rt p r, ref_once cf rt p = Some r -> o_err r <> ERecursion.
+Proof.
+  intros cf rt p r H. unfold ref_once in H. destruct (negb (mutable p)); [inversion H; cbn; congruence|].
+  destruct (p_root p); try (inversion H; cbn; congruence).
+  - destruct (alookup k rt); inversion H; cbn; congruence.
+  - destruct (alookup d (c_dns cf)) as [[v t]|]; [|inversion H; cbn; congruence].
+    destruct (is_ipld v); inversion H; cbn; congruence.
 Qed.
 
 Lemma ref_rec_recursion_inv : forall cf rt fuel p d r,
@@ -813,6 +822,7 @@ Proof.
   intros cf rt. induction fuel as [|fuel IH]; intros p d r H He Hd.
   - cbn in H. inversion H; subst. discriminate He.
   - cbn [ref_rec] in H. destruct (ref_once cf rt p) as [r1|] eqn:H1; [|discriminate].
+    pose proof (ref_once_err _ _ _ _ H1) as Hnr.
     destruct (o_err r1) eqn:E1; try (inversion H; subst; congruence).
     destruct (o_path r1) as [q|] eqn:Eq; [|inversion H; subst; congruence].
     destruct (negb (mutable q)) eqn:Hm; [inversion H; subst; congruence|].
@@ -979,3 +989,63 @@ Proof.
   specialize (H Hf).
   destruct (resolve_rec (fuel_of d) f cf st p d) as [st' [r|]]; cbn [snd] in *; [now apply H | cbn; congruence].
 Qed.
+
+(** * The defects: concrete histories on which the flag-on models break the property *)
+
+Definition wA : path := mkPath (RImm false 0%N) [] false.
+Definition wB : path := mkPath (RImm false 1%N) [0%N] false.
+Definition wN0 : path := mkPath (RName 0%N EB36) [] false.
+Definition HOUR : Z := 3600000000000.
+
+(** C29-1: resolve, publish another value, resolve again *)
+Definition witness1 : list op :=
+  [OPublish 0%N wA HOUR (1 * HOUR) None; OResolve wN0 32;
+   OPublish 0%N wB HOUR (2 * HOUR) None; OResolve wN0 32].
+Definition cfg8 : cfg := mkCfg 8 None [].
+
+Lemma cache_key_refuted_l :
+  let f := mkFlags true false false in
+  let st := fst (run f cfg8 st0 [OPublish 0%N wA HOUR (1 * HOUR) None; OResolve wN0 32]) in
+  snd (publish f cfg8 st 0%N wB HOUR (2 * HOUR) None) = PNone /\
+  o_path (snd (resolve f cfg8 (fst (publish f cfg8 st 0%N wB HOUR (2 * HOUR) None)) wN0 32)) = Some wA /\
+  spec_run cfg8 (mkSh [] []) witness1 (snd (run f cfg8 st0 witness1)) = false /\
+  spec_run cfg8 (mkSh [] []) witness1 (snd (run ideal cfg8 st0 witness1)) = true.
+Proof. vm_compute. repeat split. Qed.
+
+(** C29-2: explicit sequence 2^64-1, then a changed value: the datastore record's
+    sequence number drops to 0 (and routing refuses the record) *)
+Definition witness2 : list op :=
+  [OPublish 0%N wA HOUR (1 * HOUR) None; OPublish 0%N wA HOUR (2 * HOUR) (Some U64MAX);
+   OPublish 0%N wB HOUR (3 * HOUR) None].
+Definition cfg0 : cfg := mkCfg 0 None [].
+
+Lemma seq_wrap_refuted_l :
+  let f := mkFlags false true false in
+  let st := fst (run f cfg0 st0 [OPublish 0%N wA HOUR (1 * HOUR) None; OPublish 0%N wA HOUR (2 * HOUR) (Some U64MAX)]) in
+  let st' := fst (publish f cfg0 st 0%N wB HOUR (3 * HOUR) None) in
+  option_map r_seq (alookup 0%N (s_ds st)) = Some U64MAX /\
+  option_map r_seq (alookup 0%N (s_ds st')) = Some 0 /\
+  snd (publish f cfg0 st 0%N wB HOUR (3 * HOUR) None) = POld /\
+  spec_run cfg0 (mkSh [] []) witness2 (snd (run f cfg0 st0 witness2)) = false /\
+  spec_run cfg0 (mkSh [] []) witness2 (snd (run ideal cfg0 st0 witness2)) = true.
+Proof. vm_compute. repeat split. Qed.
+
+(** C29-3 (only visible once C29-1 is repaired): publish with TTL 0 after a publish
+    with a positive TTL leaves the old value in the cache *)
+Definition witness3 : list op :=
+  [OPublish 0%N wA HOUR (1 * HOUR) None; OPublish 0%N wB 0 (2 * HOUR) None; OResolve wN0 32].
+
+Lemma ttl0_stale_refuted_l :
+  let f := mkFlags false false true in
+  o_path (snd (resolve f cfg8 (fst (run f cfg8 st0 [OPublish 0%N wA HOUR (1 * HOUR) None; OPublish 0%N wB 0 (2 * HOUR) None])) wN0 32)) = Some wA /\
+  spec_run cfg8 (mkSh [] []) witness3 (snd (run f cfg8 st0 witness3)) = false /\
+  spec_run cfg8 (mkSh [] []) witness3 (snd (run ideal cfg8 st0 witness3)) = true.
+Proof. vm_compute. repeat split. Qed.
+
+(** the classification of the three witnesses as the harness would report them *)
+Lemma witnesses_classified :
+  check_case (Case cfg8 witness1 (snd (run (mkFlags true false true) cfg8 st0 witness1))) = VKnown 1 /\
+  check_case (Case cfg0 witness2 (snd (run (mkFlags true true true) cfg0 st0 witness2))) = VKnown 2 /\
+  check_case (Case cfg8 witness3 (snd (run (mkFlags false false true) cfg8 st0 witness3))) = VKnown 3 /\
+  check_case (Case cfg8 witness1 (snd (run ideal cfg8 st0 witness1))) = VOk.
+Proof. vm_compute. repeat split. Qed.
